@@ -254,6 +254,12 @@ def run(plan, ch, want_log=False):
     if plan.get("line"):
         K.cfg["pool_trace_fn"] = _line_tracer
     ncreate = {"n": 0}
+
+    def count_creates(name, size):
+        if K.cur().proc.name == "shm" and ".pool" in K.cur().name:
+            ncreate["n"] += 1
+        return False
+    K.cfg["shm_enomem"] = count_creates
     for kind, n in plan.get("faults") or []:
         if kind == "write_eio":
             K.fs.plan[("write", n)] = "eio"
@@ -443,12 +449,36 @@ def run(plan, ch, want_log=False):
     res = dict(harness=NAME, viol=viol, probes=dict(pr), fired=dict(K.fired), digest=K.digest(), steps=K.steps, simtime=(K.now - K.t0) / 1e9,
                stats=dict(ops=sum(len(o) for o in plan["ops"]), clients=len(plan["ops"]), **{k: v for k, v in results.items()}),
                nontrivial=dict(C08=pr.get("pageout_finished", 0) > 0, C09=pr.get("pagein_finished", 0) > 0 or pr.get("delayed_purge", 0) > 0),
-               end=end, verdict="ok")
+               end=end, verdict="ok", fault_points=dict(writes=K.fs.nwrite, opens=K.fs.nopen_r, reads=K.fs.nread, creates=ncreate["n"]))
     if want_log:
         res["log"] = K.tracelog
         res["results"] = dict(results)
         res["crashes"] = [(a, b, c[-800:]) for a, b, c in K.crashes]
     return res
+
+
+def expand(plan, res, rng, cap, kinds):
+    """Single-fault enumeration along the recorded schedule of a fault-free base run: every disk write, every file open for
+    reading, every read and every segment creation by a disk thread fails once (each in its own run, identical prefix)."""
+    fp = res.get("fault_points") or {}
+    pts = []
+    for n in range(1, fp.get("writes", 0) + 1):
+        pts += [["write_eio", n], ["write_enospc", n]]
+    for n in range(1, fp.get("opens", 0) + 1):
+        pts.append(["open_missing", n])
+    for n in range(1, fp.get("reads", 0) + 1):
+        pts.append(["read_eio", n])
+    for n in range(1, fp.get("creates", 0) + 1):
+        pts.append(["shm_enomem", n])
+    total = len(pts)
+    if cap is not None and len(pts) > cap:
+        pts = [pts[i] for i in sorted(rng.sample(range(len(pts)), cap))]
+    out = []
+    for f in pts:
+        c = copy.deepcopy(plan)
+        c["faults"] = [f]
+        out.append(c)
+    return out, total
 
 
 def shrink_candidates(plan):
